@@ -79,6 +79,7 @@ RULES: Dict[str, Callable] = {
     "R-REDUCE": _cached("R-REDUCE", repres.run_reduce),
     "R-HEADER": _cached("R-HEADER", repres.run_header),
     "R-VALUES": _cached("R-VALUES", repres.run_values),
+    "R-TERMS": _cached("R-TERMS", repres.run_terms),
 }
 
 
@@ -168,6 +169,7 @@ PLAN: Dict[str, dict] = {
             G("R-NAMES", "the indeterminates handed to the evaluation loop (iteration over poly.indeterminants) keep their names", only=in_files("numpoly/baseclass.py", "poly_function/call.py", "numpoly/dispatch.py")),
             G("R-CAST", "numbers turned into constant polynomials during partial evaluation are written whatever numeric type carries them (raw writer only for dtypes it implements)"),
             G("R-TERMZIP", "the evaluation loop pairs each exponent row with its own coefficient", only=in_funcs("call")),
+            G("R-ALIAS", "call() does not write into the caller's args / kwargs containers (a reused kwargs dict must give the same evaluation twice)", only=in_funcs("call")),
         ],
         "explanation": "call(): branches raising TypeError for an unknown and for a doubly supplied indeterminate exist and every "
                        "path into the evaluation loop passed the unknown-name guard; numpoly.outer and numpy.outer receive the same "
@@ -190,6 +192,7 @@ PLAN: Dict[str, dict] = {
             G("R-TERMZIP", "keys, exponent rows and coefficients of one polynomial are paired term by term in one order"),
             S("R-MEMORDER", "flattening / reshaping keeps numpy's logical element order (no literal memory-dependent order)"),
             S("R-COLPERM", "re-ordered names and their exponent columns are permuted together"),
+            G("R-TERMS", "the term accessors range over every key; todict keeps every term and the coefficient arrays themselves"),
         ],
         "explanation": "Construction goes through validated constructors: every normal return of postprocess_attributes passed the "
                        "2-d / length / name-count / duplicate-name / duplicate-exponent checks; encode/decode of storage keys use "
@@ -208,6 +211,7 @@ PLAN: Dict[str, dict] = {
             G("R-CAST", "aligned operands are rebuilt through polynomial_from_attributes: cast before the raw write, raw writer only for dtypes it implements"),
             S("R-BISECT", "no bisection on a sequence that was sorted with a key function (name / exponent look-ups are by equality)"),
             S("R-COLPERM", "re-ordered names and their exponent columns are permuted together"),
+            G("R-TERMS", "alignment reads every term of its arguments (coefficients / exponents range over all keys)", only=in_funcs("coefficients", "exponents")),
         ],
         "explanation": "Each align_* function returns tuple(list of per-argument images) in argument order where slot i is only "
                        "replaced by a value computed from argument i; the common shape / names / exponents are computed over all "
@@ -256,6 +260,7 @@ PLAN: Dict[str, dict] = {
             G("R-OPT-PINNED", "alignment keeps one layout under every option setting (operands with different name sets)", only=in_files("numpoly/align.py")),
             S("R-BISECT", "no bisection on a sequence that was sorted with a key function (name / exponent look-ups are by equality)"),
             S("R-COLPERM", "re-ordered names and their exponent columns are permuted together"),
+            G("R-CLEAN", "identifying a differentiation variable given as a polynomial relies on remove_redundant_names keeping exactly the used names (one-name fall-back only when none is used)", only=in_funcs("remove_redundant_names")),
         ],
         "explanation": "derivative: the decrement of the uint32 exponent column is applied only to rows filtered by 'column > 0' "
                        "(so it holds under every retain_* setting); the differentiated column index is looked up in the names of the "
@@ -493,6 +498,7 @@ PLAN: Dict[str, dict] = {
             S("R-BISECT", "no bisection on a sequence that was sorted with a key function (name / exponent look-ups are by equality)"),
             S("R-BISECT", "no bisection on a sequence that was sorted with a key function (name / exponent look-ups are by equality)"),
             S("R-COLPERM", "re-ordered names and their exponent columns are permuted together"),
+            G("R-TERMS", "todict agrees with the polynomial: every term, coefficient arrays unconverted", only=in_funcs("todict")),
         ],
         "explanation": "lead_exponent and lead_coefficient are the same ascending glexsort(graded, reverse) walk overwriting where "
                        "the coefficient is non-zero from a zero-initialised result; tonumpy raises FeatureNotSupported unless "
